@@ -70,5 +70,8 @@ class Select(Block):
                 file_ast, line_number, binding_name, var_desc, [], link_obj=bound_var
             )
         elif bound_var is not None:
+            # In the CLASS DEFAULT region the selector keeps its declared type
+            if case_type == 4:
+                return None
             return Variable(file_ast, line_number, bound_var, var_desc, [])
         return None
